@@ -53,6 +53,45 @@ missed.update({
     "C18-F": "the kubernetes package was tested on its own; the coordinator's handling of an empty Replicas() list after a good cycle was not (coordinator-on-kubernetes unit added)",
     "C19-E": "as C18-F: several StatefulSets with different readiness were never listed through the real ReplicasManager",
 })
+missed.update({
+    # round 4
+    "C02-G": "requests to one sidecar were strictly sequential (unit with an overlapping configuration push and target update added, under C11 and C02)",
+    "C02-H": "the discovered targets were handed to the injector by the harness; the coordinator's grouping by job never ran (half of the cases now go through a real cycle and the sidecar API)",
+    "C03-G": "first caught by C06's process-level unit only; no assignment was larger than a few KiB (TestC03Big added)",
+    "C03-H": "first caught by C16 only; every closed-loop sidecar took pushed configuration, none read its own file with its own external labels (file mode added)",
+    "C05-G": "no scrape was in flight while an update was applied (C10: update during a scrape; C05 loop: scrapes held over a cycle, directed held moves)",
+    "C07-H": "first caught by C16 only; shards' hashes were scripted, no shard ran a configuration differing in a secret (drifted shard in the closed loop added)",
+    "C13-G": "the Prometheus side always waited for the proxy's answer (impatient client added)",
+    "C13-H": "stop-scrape was only set on one sidecar directly, never distributed by a coordinator cycle next to a failing shard (TestC13Stop added)",
+    "C14-G": "payloads never exceeded one block of the stream parser (bulk families added)",
+    "C16-H": "child processes never constructed what the sidecar role constructs, and no scalar was long enough to be folded",
+    "C17-G": "every reload delivered raw content; ReloadFromFile with symlinked or same-stat files never ran",
+    "C18-G": "no rolling update had an unready pod for longer than the two-minute wait (hook to age the wait added)",
+    "C19-G": "all StatefulSets lived in one namespace with distinct selectors",
+    "C19-H": "the coordinator's period was always 0 and shards answered at once",
+    "C20-H": "first caught by C14 only; the jobs' metric relabel rules only looked at the metric name",
+    # round 5
+    "C01-I": "the coordinator's ConfigInfo carried no parsed configuration in the cycle scenarios (per-job limits added)",
+    "C01-J": "not a C01 matter: the posted lists stay correct, the target is lost through a scale request, which C07 catches",
+    "C02-I": "no discovered target carried a __param_<k> label",
+    "C05-J": "every refused scrape counted as a scrape attempt in the harness' own counters, and no shard lacked a job's HTTP client (jobBroken fault, arrival tokens)",
+    "C07-I": "max-idle-time was always one hour and idle instants were far from the boundary",
+    "C07-J": "first caught by C19 only; C07's scenarios had a single replica (second replica with failing listing added)",
+    "C09-J": "the old-version store was only read by processes whose update callbacks all succeeded",
+    "C10-I": "no update callback ever failed (updates whose Prometheus reload fails added)",
+    "C10-J": "no store directory held a leftover targets.json of an old version",
+    "C11-I": "no external label value contained a dollar sign",
+    "C11-J": "remote_write never used sigv4",
+    "C12-I": "caught by C13 (content rule) after scripted failures became one-shot: a target asked again within the same scrape is healthy",
+    "C12-J": "proxy requests carried no X-Prometheus-Scrape-Timeout-Seconds header",
+    "C14-I": "the rule family had no label rewrites, so no chain of rewrites could feed a filter",
+    "C15-I": "no target carried a __name__ label and label edits used one fresh label only",
+    "C16-J": "every reload callback succeeded",
+    "C17-I": "updates and reloads were strictly sequential (reload from a logger hook in the middle of a translation added; this also exposed the defect fixed in 627a218)",
+    "C17-J": "every job had the same one-target static_configs section",
+    "C18-J": "StatefulSet statuses carried no revisions",
+    "C20-J": "a failing probe was always a refused connection, never a 200 whose body breaks off",
+})
 for f in sorted(glob.glob(os.path.join(os.path.dirname(__file__), "..", "seeded", "*", "meta.json"))):
     m = json.load(open(f))
     rd = open(os.path.join(os.path.dirname(f), "README.md")).read().strip().splitlines()
